@@ -435,6 +435,14 @@ def if_element(prog, chk):
             tt, ft = edges
             ok = b.dominates(tt, bodies[0][0]) and bodies[0][0] not in b.reach([ft]) and tt != ft
     chk.ob(ok, "A13.if-skeleton", "IfElement:body-on-true", b.where(), "the body of <if> is processed exactly on the true edge of its test", "the <if> body is not control-dependent on the true edge of its test")
+    # the test is evaluated every time the element is processed (also when it is processed again after a forward
+    # reference in its content could not be resolved): no path reaches the body without passing the evaluation
+    if conds and bodies:
+        from sa import vstate
+        vs = vstate.of(b, prog)
+        for (pb, pt, pc) in bodies:
+            gated = any(b.dominates(cb, pb) for (cb, ct, cc) in conds) or (len(conds) == 1 and vs.passes_through(conds[0][0], pb))
+            chk.ob(gated, "A13.if-skeleton", "IfElement:test-every-time", b.where(pb, pt.get("line")), "the body of <if> is processed only after its test has been evaluated, on every path", "a path reaches the body of <if> without evaluating `test` (a remembered / defaulted outcome): an <if> that is processed again - its content referred forward - takes the branch of the first attempt although the variables its test reads may have changed since")
     # the test expression is the `test` attribute
     gets = [(bb, t) for (bb, t, c) in b.call_sites(R.path_is("svgdx::element::SvgElement::get_attr"))]
     lit = None
